@@ -1634,8 +1634,11 @@ func (h *fsmHandler) opensent(ctx context.Context) (bgp.FSMState, *fsmStateReaso
 			if err == nil {
 				switch stateOp.State {
 				case adminStateDown:
-					fsm.conn.Close()
-					return bgp.BGP_FSM_IDLE, newfsmStateReason(fsmAdminDown, nil, nil)
+					// RFC 4271 8.2.2: ManualStop sends a Cease NOTIFICATION
+					// before the connection is dropped.
+					m := bgp.NewBGPNotificationMessage(bgp.BGP_ERROR_CEASE, bgp.BGP_ERROR_SUB_ADMINISTRATIVE_SHUTDOWN, stateOp.Communication)
+					_ = fsm.sendNotification(fsm.conn, m)
+					return bgp.BGP_FSM_IDLE, newfsmStateReason(fsmAdminDown, m, nil)
 				case adminStateUp:
 					h.fsm.logger.Error("code logic bug",
 						slog.String("State", fsm.state.String()),
@@ -1757,8 +1760,11 @@ func (h *fsmHandler) openconfirm(ctx context.Context) (bgp.FSMState, *fsmStateRe
 			if err == nil {
 				switch stateOp.State {
 				case adminStateDown:
-					fsm.conn.Close()
-					return bgp.BGP_FSM_IDLE, newfsmStateReason(fsmAdminDown, nil, nil)
+					// RFC 4271 8.2.2: ManualStop sends a Cease NOTIFICATION
+					// before the connection is dropped.
+					m := bgp.NewBGPNotificationMessage(bgp.BGP_ERROR_CEASE, bgp.BGP_ERROR_SUB_ADMINISTRATIVE_SHUTDOWN, stateOp.Communication)
+					_ = fsm.sendNotification(fsm.conn, m)
+					return bgp.BGP_FSM_IDLE, newfsmStateReason(fsmAdminDown, m, nil)
 				case adminStateUp:
 					fsm.logger.Error("code logic bug",
 						slog.String("State", fsm.state.String()),
